@@ -248,8 +248,8 @@ FAMILY = {
     # property: (quick design cfgs, thorough design cfgs, simulate cfgs, depth)
     'C01': (['srv_c01'], ['srv_c01', 'srv_c03', 'srv_send'], ['srv_c01', 'srv_c07', 'srv_c09', 'srv_send'], 45),
     'C03': (['srv_c03q'], ['srv_c03', 'srv_c03c1', 'srv_send'], ['srv_c03', 'srv_c06', 'srv_c03c1', 'srv_c06c3', 'srv_send'], 45),
-    'C06': (['srv_c06', 'srv_send'], ['srv_c06', 'srv_c03', 'srv_c07b', 'srv_c06c3', 'srv_send'], ['srv_c06', 'srv_c03', 'srv_c07b', 'srv_c06c3', 'srv_c03c1', 'srv_send'], 45),
-    'C07': (['srv_c07q'], ['srv_c07', 'srv_c03', 'srv_c07b'], ['srv_c07', 'srv_c06', 'srv_c07b'], 45),
+    'C06': (['srv_c06', 'srv_send'], ['srv_c06', 'srv_c03', 'srv_c07b', 'srv_c06c3', 'srv_send', 'srv_send2'], ['srv_c06', 'srv_c03', 'srv_c07b', 'srv_c06c3', 'srv_c03c1', 'srv_send', 'srv_send2'], 45),
+    'C07': (['srv_c07q'], ['srv_c07', 'srv_c03', 'srv_c07b', 'srv_send2'], ['srv_c07', 'srv_c06', 'srv_c07b', 'srv_send2'], 45),
     'C08': (['srv_c08q', 'srv_live'], ['srv_c08', 'srv_c08u', 'srv_live'], ['srv_c08', 'srv_c08u', 'srv_c08r'], 50),
     'C09': (['srv_c09', 'srv_c09n'], ['srv_c09', 'srv_c09b', 'srv_c09r', 'srv_c09n'], ['srv_c09', 'srv_c09b', 'srv_c09r', 'srv_c09n'], 45),
 }
